@@ -28,7 +28,10 @@ P("C16",
   "Proof of absence of panics and of the reply/refusal contracts on the parts of the request path under contract: client checkOptionAndError and ReceiveRemoteModelOperations for all replies, server evaluatePushPullCase and initClientInfoWithDatatypeDoc for all requests and database answers. process/finalize (exactly one reply) not yet under contract.")
 P("C17",
   "Proof that every datatype document evaluatePushPullCase hands to the handler belongs to the caller's collection, on both lookup paths (by key and by DUID), for all database answers. Purge filters and collection-number generation not yet under contract.")
+P("C12",
+  "Restricted to the sequential lock discipline (typestate proof, no schedules): process() consults TryLock and refuses the request when the lock is not obtained; every function that reads-modifies-writes the datatype document (pushOperations, pullOperations, commitToMongoDB) has `lock held` as a precondition discharged at its call sites; finalize unlocks exactly what was locked; the lock name is collection:key. Data-race freedom, real parallel executions and the per-call context of cached local locks are NOT decided by this check.",
+  "Lock objects are modelled as a ghost set of held locks (utils.Lock / sync.RWMutex extern contracts); blocking and fairness are not modelled.")
 _pending = "not claimed yet: machinery for this property is still being built in this session (no check registered, nothing reported)"
-for p in ["C01","C04","C10","C11","C12","C18","C19"]:
+for p in ["C01","C04","C10","C11","C18","C19"]:
     NA[p] = _pending
 NA["C20"] = "quantified over thread schedules only (unsynchronised isLocked/txCtx read racing with BeginTransaction): a sequential weakest-precondition calculus has no second thread; a sequential lock-balance proof would pass while the property is false (DESIGN.md section 6)"
